@@ -29,13 +29,13 @@ from vlib.runner import Violation, Discard, crash_clause
 
 ID = 'C03'
 LEVEL = 'exploration'
-RULE = ('Hypothesis-generated sets of 2-7 comment blocks over a fixed cast (4 plain functions, 2 records, boxed, union, enum, '
+RULE = ('Hypothesis-generated sets of 2-9 comment blocks over a fixed cast (4 plain functions, 2 records, boxed, union, enum, '
         'flags, 3 constants, 2 callbacks, classes FooObj/FooSubObj + interface FooIface from a dump with 8 properties, 6 signals, '
         'instance/class-struct fields, 5 virtual slots with/without invoker; 3 world flags). Block identifiers are real names in all '
         'documented forms (symbol, Class:prop, Class::sig, Struct.field, ClassStruct::vfunc, member, constant, type) or near misses '
         '(other class, other identifier form, prefix/suffix, wrong case, GI name, vfunc via instance type); each block carries 0-3 '
-        'identifier annotations from the whole block vocabulary (70 % applicable to the element kind) with targets drawn from the '
-        'cast, and Since/Deprecated/Stability tags with value and text. Per case 1 + #blocks (+ #blocks with inapplicable '
+        'identifier annotations from the whole block vocabulary (mostly applicable to the element kind, some deliberately on a kind '
+        'the documentation excludes) with targets drawn from the cast, and Since/Deprecated/Stability tags with value and text. Per case 1 + #blocks (+ #blocks with inapplicable '
         'annotations) pipeline runs. non-trivial = at least one block on a nested element (property, signal, field, vfunc, member) '
         'and at least one near-miss block; distinct = hash of the case')
 ASSUMPTIONS = [
@@ -163,7 +163,7 @@ _CALLBACKS = [('FooCallback', VOID, [('v', INT), ('user_data', T('gpointer'))]),
 
 FLAG_NAMES = ('frob_invoker', 'sig_frob', 'sub_name')
 NESTED_FORMS = ('prop', 'signal', 'field', 'vfunc', 'member')
-ASYNC_FAMILY = ('foo_obj_load_async', 'foo_obj_load_finish', 'foo_obj_load', 'foo_obj_read_begin', 'foo_obj_read_end', 'foo_obj_read_now')
+ASYNC_FAMILY = ('foo_obj_load_async', 'foo_obj_read_begin', 'foo_obj_load_finish', 'foo_obj_load', 'foo_obj_read_end', 'foo_obj_read_now')
 _WORLDS = {}
 
 
@@ -447,7 +447,7 @@ def _near_misses(e, W):
 
 
 # annotations on an element kind the documentation excludes, where a mix-up is plausible
-CONFUSIONS = [('value', ['member', 'enum', 'flags']), ('value', ['property', 'field', 'function']), ('emitter', ['property', 'vfunc', 'field']),
+CONFUSIONS = [('value', ['member', 'enum', 'flags']), ('value', ['property']), ('value', ['field', 'function']), ('emitter', ['property', 'vfunc', 'field']),
               ('setter', ['signal', 'field']), ('getter', ['signal', 'function']), ('default-value', ['field', 'constant', 'signal']),
               ('transfer', ['field', 'signal', 'function']), ('type', ['signal', 'constant', 'member', 'function']),
               ('copy-func', ['class', 'interface', 'enum']), ('free-func', ['class', 'callback']), ('ref-func', ['record', 'boxed', 'interface']),
@@ -484,8 +484,10 @@ def _block(draw, W, mode):
         cands = [e for e in W['elems'] if applicable(first, e, W) == 'yes']
         if first == 'rename-to' and draw(st.integers(0, 3)) > 0:
             cands = [e for e in cands if e.get('group')]
-        if first in ASYNC_ATTRS and draw(st.booleans()):
+        if first in ASYNC_ATTRS and draw(st.integers(0, 2)) > 0:
             cands = [e for e in cands if e['id'] in ASYNC_FAMILY]
+            if first == 'finish-func' and draw(st.booleans()):
+                cands = [e for e in cands if e['id'] in ASYNC_FAMILY[:2]]      # the ones the finish heuristic looks at
         if draw(st.integers(0, 4)) == 0:
             cands = W['elems']
         kinds = sorted(set(e['kind'] for e in cands))
@@ -500,7 +502,8 @@ def _block(draw, W, mode):
     if near:
         nm = _near_misses(e, W)
         hows = sorted(set(h for h, x in nm))
-        hows = hows + [h for h in hows if h.startswith('form:') or h in ('other-owner', 'vfunc-via-instance')] * 2
+        hows = hows + [h for h in hows if h.startswith('form:') or h in ('other-owner', 'vfunc-via-instance')] * 2 \
+            + [h for h in hows if h == 'vfunc-via-instance'] * 3
         how = draw(st.sampled_from(hows))
         nm = [x for h, x in nm if h == how]
         ident = nm[draw(st.integers(0, len(nm) - 1))]
